@@ -26,7 +26,7 @@ from .refmodel import UNITARY_KINDS
 
 PI = math.pi
 
-refl = st.one_of(st.sampled_from([0.0, 1.0, 0.5, 0.5, 0.9999999999999999, 1e-17]),
+refl = st.one_of(st.sampled_from([0.0, 1.0, 0.5, 0.5, 0.9999999999999999, 1e-17, 1e-8, 1 - 1e-8, 1e-6, 1]),
                  st.floats(0, 1, allow_nan=False))
 loss_pos = st.one_of(st.sampled_from([1.0, 0.5, 1e-9]),
                      st.floats(0, 1, allow_nan=False, exclude_min=True))
